@@ -363,6 +363,17 @@ impl Harness for C16 {
         }
         let nmax_all = if t { 10 } else { 7 };
         for n in 2..=nmax_all {
+            if n >= 9 {
+                // 9! and 10! permutations: one job per k / per test size, so that the space is spread
+                // over the workers
+                for k in 2..=n {
+                    jobs.push(Job::new(format!("kfold-shuffle-all-n{}-k{}", n, k), json!({"kind": "kfold", "n": n, "shuffle": true, "k": k})));
+                }
+                for (i, _) in TEST_SIZES.iter().enumerate() {
+                    jobs.push(Job::new(format!("split-shuffle-all-n{}-ts{}", n, i), json!({"kind": "split", "n": n, "shuffle": true, "ts": i})));
+                }
+                continue;
+            }
             jobs.push(Job::new(format!("kfold-shuffle-all-n{}", n), json!({"kind": "kfold", "n": n, "shuffle": true})));
             jobs.push(Job::new(format!("split-shuffle-all-n{}", n), json!({"kind": "split", "n": n, "shuffle": true})));
         }
@@ -418,11 +429,18 @@ impl Harness for C16 {
         let mode = if job.b("dev") { RngMode::Deviations } else { RngMode::All };
         match job.kind() {
             "kfold" => {
-                let k = 2 + mc::choose(n - 1);
+                // large all-permutation spaces are split into one job per k
+                let k = match job.params.get("k").and_then(|v| v.as_u64()) {
+                    Some(k) => k as usize,
+                    None => 2 + mc::choose(n - 1),
+                };
                 kfold_case(n, k, shuffle, mode);
             }
             "split" => {
-                let ts = mc::pick(TEST_SIZES);
+                let ts = match job.params.get("ts").and_then(|v| v.as_u64()) {
+                    Some(i) => TEST_SIZES[i as usize],
+                    None => mc::pick(TEST_SIZES),
+                };
                 split_case(n, ts, shuffle, mode);
             }
             "cv" => {
